@@ -75,7 +75,7 @@ CLAIMED["C05"] = dict(
          "matrix (8 accessors, exact rational conversion from the code's own factors) and by random context programs with "
          "exceptions, unknown units, raw set/unset and 11 library calls, each of which must leave the caller's units unchanged. A block also restores units, backup stack and nesting counter whatever hand switches (set_current_units) and nested blocks its body contains, also when it asked for the units already active (block_restores_despite_hand_switches).",
     note="Lean kernel + standard axioms; extractor + harness (ours); numeric factor values are the code's (symbolic in the "
-         "theorems); 'no library call changes units' is decided by the oracle over the calls exercised, not proved for all calls.",
+         "theorems); 'no library call changes units' is decided by the oracle over the calls exercised, not proved for all calls. One open finding: Molecule.get_transition_width / get_adiabatic_coupling hand out the stored internal value under any units context (KNOWN-FINDING).",
     technique="Lean 4 field identities + induction over bracketed context programs + exact state correspondence",
     ref="DESIGN.md §5 C05")
 
